@@ -91,7 +91,7 @@ Lemma gen_BlockMint_spec tpb decrease found last ok_mint ok_staker ok_dev ok_sti
     if e <? 0 then GPanic else GVal (blockmint_events e ok_mint ok_staker ok_dev ok_stipend).
 Proof.
   unfold gen_BlockMint, blockmint_events, gcoin64.
-  destruct found; (destruct (gen_GetMintForBlock _ 5256000 decrease) as [e|]; [|reflexivity]); cbn [gbind];
+  destruct found; cbn [gbind]; (destruct (gen_GetMintForBlock _ 5256000 decrease) as [e|]; [|reflexivity]); cbn [gbind];
     (destruct (e <? 0); [reflexivity|]); cbn [gbind app];
     destruct ok_mint, ok_staker, ok_dev, ok_stipend; reflexivity.
 Qed.
